@@ -76,3 +76,17 @@ def rtu_supported_rsp_pdu(pdu):
     if 0x81 <= fc <= 0xAB:
         return n == 2
     return False
+
+
+def ser_case(parts, svc_tokens, exp_trace, end="w", abort=False, meta=None):
+    """A case for the serial RTU server (`server::rtu::Server`) over a pty: the chunks `parts` are written to the line, the
+    table service answers; `exp_trace` (spec side) tells the harness how many invocations / reply bytes to wait for.
+    The model runs the equivalent `SRV rtu` line."""
+    from vlib import Case
+    ncalls = sum(1 for t in exp_trace if t.startswith("C:"))
+    nbytes = sum(len(t[2:]) // 2 for t in exp_trace if t.startswith("W:"))
+    rs = mb.rscript(parts)
+    line = "SERSRV %s %s %d %d %s%s" % (rs, svc_tokens, ncalls, nbytes, end, " abort" if abort else "")
+    m = dict(meta or {})
+    m.update(ser=True, abort=abort, model_line="SRV rtu %s - - %s" % (rs, svc_tokens))
+    return Case(line, m)
